@@ -47,6 +47,17 @@ def corpus():
     # F14: end() with an update in flight, and deletion in flight
     base.append({'kind': 'shutdown', 'ends': 1, 'last_forced': False, 'kill': None, 'kill_at': 0,
                  'par_ts': 5, 'run': [3]})
+    # the worker is still computing when it is told to stop (end() / deletion with the result not yet there)
+    base.append({'kind': 'shutdown', 'ends': 1, 'last_forced': False, 'kill': None, 'kill_at': 0,
+                 'par_ts': 5, 'run': [3], 'sleep': 0.5})
+    base.append({'kind': 'shutdown', 'ends': 1, 'last_forced': True, 'kill': 'delete', 'kill_at': 1,
+                 'par_ts': 3, 'run': [3], 'sleep': 0.5})
+    # F31: the deleting update comes first in the batch in which the parallel process is due
+    base.append({'kind': 'shutdown', 'ends': 1, 'last_forced': True, 'kill': 'delete', 'kill_at': 1,
+                 'par_ts': 1, 'run': [3], 'killer_first': True})
+    # F32: a structural update while an unrelated parallel process is in flight
+    base.append({'kind': 'shutdown', 'ends': 1, 'last_forced': True, 'kill': 'delete', 'kill_at': 1,
+                 'par_ts': 1, 'run': [6], 'bystander': True})
     base.append({'kind': 'shutdown', 'ends': 2, 'last_forced': True, 'kill': 'delete', 'kill_at': 2,
                  'par_ts': 3, 'run': [4]})
     base.append({'kind': 'shutdown', 'ends': 0, 'last_forced': False, 'kill': 'divide', 'kill_at': 2,
@@ -74,6 +85,8 @@ def generate(rng, n, tier):
                         'last_forced': rng.random() < 0.5,
                         'kill': rng.choice([None, 'delete', 'delete', 'divide']),
                         'kill_at': rng.choice([1, 2, 3]), 'par_ts': rng.choice([1, 2, 3, 4, 5]),
+                        'sleep': rng.choice([0.0, 0.0, 0.3]), 'killer_first': rng.random() < 0.5,
+                        'bystander': rng.random() < 0.4,
                         'run': [rng.choice([2, 3, 4, 5]) for _ in range(rng.choice([1, 2]))]})
     return out
 
@@ -97,12 +110,28 @@ def _shutdown_run(case, obs):
     from harness.probes import TickProcess, Killer
     eng = None
     try:
-        processes = {'agents': {'cell': {'par': TickProcess({'ts': case['par_ts'], '_parallel': True})}},
-                     'watch': TickProcess({'ts': 1, 'var': 'w'})}
-        topology = {'agents': {'cell': {'par': {'vars': ('vars',)}}}, 'watch': {'vars': ('vars',)}}
+        par = TickProcess({'ts': case['par_ts'], '_parallel': True, 'sleep': case.get('sleep', 0.0)})
+        # a second compartment keeps the glob store non-empty when `cell` goes (noted edge F20)
+        agents = {'cell': {'par': par}, 'other': {'p': TickProcess({'ts': 1, 'var': 'o'})}}
+        agents_topo = {'cell': {'par': {'vars': ('vars',)}}, 'other': {'p': {'vars': ('vars',)}}}
+        processes, topology = {}, {}
+        killer = None
         if case['kill']:
-            processes['killer'] = Killer({'at': case['kill_at'], 'mode': case['kill'],
-                                          'daughter_ts': case['par_ts']})
+            killer = Killer({'at': case['kill_at'], 'mode': case['kill'], 'daughter_ts': case['par_ts']})
+        if killer is not None and case.get('killer_first'):
+            # the deleting update is applied BEFORE the parallel process's own update of the same batch
+            processes['killer'] = killer
+            topology['killer'] = {'agents': ('agents',)}
+        processes['agents'] = agents
+        topology['agents'] = agents_topo
+        processes['watch'] = TickProcess({'ts': 1, 'var': 'w'})
+        topology['watch'] = {'vars': ('vars',)}
+        if case.get('bystander'):
+            # an unrelated parallel process that is in flight while the structure changes
+            processes['bystander'] = TickProcess({'ts': 5, '_parallel': True, 'var': 'b'})
+            topology['bystander'] = {'vars': ('vars',)}
+        if killer is not None and not case.get('killer_first'):
+            processes['killer'] = killer
             topology['killer'] = {'agents': ('agents',)}
         eng = Engine(processes=processes, topology=topology, emitter={'type': 'null'},
                      display_info=False, progress_bar=False)
@@ -144,7 +173,7 @@ def run_impl(case):
 def model_requests(case):
     if case['kind'] == 'shutdown':
         reqs = []
-        for tail in (['stop'], ['send', 'stop']):
+        for tail in (['stop'], ['send', 'stop'], ['send', 'stop', 'get']):
             seq = ['send', 'get'] * 2 + tail + ['stop'] * max(0, case['ends'] - 1)
             reqs.append({'op': 'proto', 'reqs': seq})
         return reqs
